@@ -18,15 +18,15 @@ Src == <<"A","src">>
 MCOut == <<"A","out">>
 D7 == DirNode(755, 1)
 
-MCNameOrder == <<"", ".", "..", ".git", ".terraform", ".terraformignore", "A", "a", "ab", "b", "cw", "e", "ef", "ext", "ext2",
-                 "f", "fifo", "g", "k", "l", "la", "lb", "m", "modules", "out", "p", "ra", "rl", "rl2", "s", "src", "srcx", "x", "y", "z">>
+MCNameOrder == <<"", ".", "..", "..n", ".git", ".terraform", ".terraformignore", "A", "a", "ab", "b", "cw", "e", "ef", "ext", "ext2",
+                 "f", "fifo", "g", "k", "l", "la", "lb", "m", "modules", "out", "p", "q", "ra", "rl", "rl2", "s", "src", "srcx", "t", "x", "y", "z">>
 MCNameChars == [n \in { MCNameOrder[i] : i \in DOMAIN MCNameOrder } |->
    CASE n = ".git" -> DotGit [] n = ".terraform" -> DotTerraform [] n = "modules" -> Modules
      [] n = ".terraformignore" -> <<".","t","e","r","r","a","f","o","r","m","i","g","n","o","r","e">>
      [] n = "ab" -> <<"a","b">> [] n = "ef" -> <<"e","f">> [] n = "ext" -> <<"e","x","t">> [] n = "ext2" -> <<"e","x","t","2">>
      [] n = "fifo" -> <<"f","i","f","o">> [] n = "la" -> <<"l","a">> [] n = "lb" -> <<"l","b">> [] n = "out" -> <<"o","u","t">>
      [] n = "src" -> <<"s","r","c">> [] n = "srcx" -> <<"s","r","c","x">> [] n = "cw" -> <<"c","w">> [] n = "rl" -> <<"r","l">>
-     [] n = "rl2" -> <<"r","l","2">> [] n = "ra" -> <<"r","a">> [] n = ".." -> <<".",".">>
+     [] n = "..n" -> <<".",".","n">> [] n = "rl2" -> <<"r","l","2">> [] n = "ra" -> <<"r","a">> [] n = ".." -> <<".",".">>
      [] OTHER -> <<n>>]
 
 ArenaBase ==
@@ -39,19 +39,20 @@ ArenaBase ==
   @@ (<<"A","la">> :> LinkNode(<<"lb">>)) @@ (<<"A","lb">> :> LinkNode(<<"la">>))
   @@ (<<"A","cw">> :> D7) @@ (<<"A","cw","rl">> :> LinkNode(<<"..","src">>)) @@ (<<"A","cw","rl2">> :> LinkNode(<<"rl">>))
   @@ (<<"A","cw","ra">> :> LinkNode(<<"","A","src">>))
+  @@ (<<"A","cw","t">> :> D7) @@ (<<"A","cw","t","e">> :> LinkNode(<<"..","..","ef">>))      \* another root with an external link
 
 Opt(x) == IF x = <<>> THEN <<>> ELSE x
 LinkSlot(p, tg) == IF tg = <<"-">> THEN <<>> ELSE (p :> LinkNode(tg))
 
 \* ---- safety universe: link shapes x special files x odd modes ----
-TL == { <<"..","ext">>, <<"..","ext","s">>, <<"..","ext","x">>, <<"..","srcx">>, <<"..","srcx","f">>, <<"s">>, <<"f">>, <<"nowhere">>,
+TL == { <<"..">>, <<"..","ext">>, <<"..","ext","s">>, <<"..","ext","x">>, <<"..","srcx">>, <<"..","srcx","f">>, <<"s">>, <<"f">>, <<"nowhere">>,
         <<"..","fifo">>, <<"..","la">>, <<"","A","src","f">>, <<"","A","ef">>, <<"..","..","A","ext">>, <<"s","..","..","ef">>, <<"..","ef">> }
 TK == { <<"..","ext2">>, <<".">>, <<"..","src","f">>, <<"x">>, <<"..","ef">> }
 TK2 == { <<"..","..","src","f">>, <<"y">> }      \* a link at ext/s/k: one level deeper than where it lands in the archive
-TM == { <<"..","f">>, <<"..","..","src","f">>, <<"..","..","ext">>, <<"..","..","srcx","f">>, <<"..">>, <<"g">> }
-TLq == { <<"..","ext">>, <<"..","ext","s">>, <<"..","ext","x">>, <<"..","srcx","f">>, <<"s">>, <<"nowhere">>, <<"..","fifo">>, <<"..","la">>, <<"","A","src","f">>, <<"","A","ef">> }
+TM == { <<"..","f">>, <<"..","..">>, <<"..","..","src","f">>, <<"..","..","ext">>, <<"..","..","srcx","f">>, <<"..">>, <<"g">> }
+TLq == { <<"..">>, <<"..","ext">>, <<"..","ext","s">>, <<"..","ext","x">>, <<"..","srcx","f">>, <<"s">>, <<"nowhere">>, <<"..","fifo">>, <<"..","la">>, <<"","A","src","f">>, <<"","A","ef">> }
 TKq == { <<"..","ext2">>, <<".">>, <<"x">> }
-TMq == { <<"..","f">>, <<"..","..","src","f">>, <<"..","..","ext">>, <<"..">> }
+TMq == { <<"..","f">>, <<"..","..">>, <<"..","..","src","f">>, <<"..","..","ext">>, <<"..">> }
 
 TreeCore(tf, md, zm) ==
   (<<"A","src","f">> :> FileNode(644, tf, 1)) @@ (<<"A","src","s">> :> DirNode(md, 3))
@@ -68,8 +69,9 @@ SafetyTrees(tl, tk, tm) ==
   \cup { TreeCore(tf, md, zm) @@ ArenaBase : tf \in {1024, 1025, 1026, 2}, md \in {755, 500, 700}, zm \in {0, 444, 777} }
 
 \* ---- round-trip universe (C02): relative in-tree links incl. dangling and chained, modes, times ----
+DotDotNames == (<<"A","src","..n">> :> FileNode(644, 2, 3)) @@ (<<"A","src","s","..n">> :> DirNode(755, 3))
 RTTrees ==
-  { LinkSlot(<<"A","src","l">>, l) @@ LinkSlot(<<"A","src","k">>, k) @@ LinkSlot(<<"A","src","s","m">>, m) @@ TreeCore(tf, md, zm) @@ ArenaBase
+  { LinkSlot(<<"A","src","l">>, l) @@ LinkSlot(<<"A","src","k">>, k) @@ LinkSlot(<<"A","src","s","m">>, m) @@ DotDotNames @@ TreeCore(tf, md, zm) @@ ArenaBase
     : l \in { <<"s">>, <<"f">>, <<"nowhere">>, <<"s","g">>, <<"k">>, <<"-">> }, k \in { <<"l">>, <<".">>, <<"-">> },
       m \in { <<"..","f">>, <<"g">>, <<"..">>, <<"-">> }, tf \in {2, 1025}, md \in {755, 500}, zm \in {0, 644} }
 
@@ -106,6 +108,7 @@ pvars == <<pfs, rules, call, res>>
 
 \* ---- spelling universe (C16): one tree, many ways to name it ----
 SpellTree == TreeCore(2, 755, 644) @@ (<<"A","src","l">> :> LinkNode(<<"s","g">>))
+             @@ (<<"A","src","q">> :> LinkNode(<<"..","ext","x">>))          \* out of tree, permitted by the relative allow-list prefix ../ext
              @@ (Src \o <<".terraformignore">> :> FileNode(644, 2, RuleFileC)) @@ ArenaBase
 SpellRules == << SR(FALSE, FALSE, TRUE, <<<<"s">>>>), SR(TRUE, FALSE, FALSE, <<<<"s">>, <<"g">>>>) >>
 Canon == [cwd |-> <<"A">>, sp |-> <<"", "A", "src">>]
@@ -120,7 +123,8 @@ Spellings ==
     [cwd |-> <<"A">>, sp |-> <<"cw", "rl", "">>], [cwd |-> <<"A","cw">>, sp |-> <<"ra", "">>] }
 Pres == { <<>>, << [op |-> "parse", lines |-> <<"!x", "y">>, ign |-> FALSE] >>, << [op |-> "pack", lines |-> <<>>, ign |-> TRUE] >>,
           << [op |-> "pack", lines |-> <<>>, ign |-> FALSE] >>,
-          << [op |-> "parse", lines |-> <<"!x">>, ign |-> FALSE], [op |-> "pack", lines |-> <<>>, ign |-> TRUE] >> }
+          << [op |-> "parse", lines |-> <<"!x">>, ign |-> FALSE], [op |-> "pack", lines |-> <<>>, ign |-> TRUE] >>,
+          << [op |-> "packsame", lines |-> <<>>, ign |-> FALSE] >> }     \* the same Packer value first packs another root (A/cw/t)
 
 \* Known-finding class for C16: the spelling's last component is a symlink and the
 \* case is not the one shape Pack handles (a single link with an absolute target to
@@ -140,8 +144,8 @@ Trees == CASE Universe = "spell" -> { SpellTree } [] Universe = "safety" -> Safe
            [] OTHER -> { IgnoreTree }
 
 OptSets == CASE Universe \in {"safety", "safetyq", "rt"} ->
-                  { [ign |-> i, deref |-> d, allow |-> al] : i \in BOOLEAN, d \in BOOLEAN, al \in { {}, {<<"A","ext">>} } }
-             [] OTHER -> { [ign |-> i, deref |-> d, allow |-> {}] : i \in BOOLEAN, d \in BOOLEAN }
+                  { [ign |-> i, deref |-> d, allow |-> al, allowrel |-> {}] : i \in BOOLEAN, d \in BOOLEAN, al \in { {}, {<<"A","ext">>} } }
+             [] OTHER -> { [ign |-> i, deref |-> d, allow |-> {}, allowrel |-> {}] : i \in BOOLEAN, d \in BOOLEAN }
 
 Init == /\ pfs \in Trees
         /\ rules \in (IF Universe \in {"safety", "safetyq", "rt", "judge"} THEN { <<>> } ELSE IF Universe = "spell" THEN { SpellRules } ELSE RuleLists)
@@ -192,7 +196,9 @@ Verdict(f, opts, rl, st, out, meta, rt, l1) ==
       d05 == (IF st = "ok" THEN C05Bad(f, Src, opts, out) ELSE {})
              \cup (IF st = "ok" /\ ~opts.deref /\ \E x \in bad : TRUE THEN {<<"out-of-tree-link-accepted", "">>} ELSE {})
              \cup (IF l1.st = "illegal" /\ st \notin {"illegal"} /\ out = l1.out /\ st # "ok" THEN {<<"rejection-not-illegal", "">>} ELSE {})
-             \cup (IF st = "ok" /\ opts.allow = {} /\ rt.st = "illegal" /\ \A p \in DOMAIN f : (StrictlyUnder(p, Src) /\ f[p].k = "l") => ~IsAbsT(f[p].tgt)
+             \cup (IF st = "ok" /\ opts.allow = {} /\ rt.st = "illegal"
+                      /\ (\A p \in DOMAIN f : (StrictlyUnder(p, Src) /\ f[p].k = "l") => ~IsAbsT(f[p].tgt))
+                      /\ (\A i \in DOMAIN out : out[i].k = "l" => ~IsAbsT(out[i].tgt))     \* also no absolute link pulled in by dereferencing
                    THEN {<<"unpack-rejects-slug", "">>} ELSE {})
       d20 == IF st = "ok" THEN C20Bad(out, meta) ELSE {}
       S == SubTree(f, Src)
@@ -228,7 +234,7 @@ DoPack ==
 DoSpell ==
   /\ ~call /\ Universe = "spell"
   /\ \E s \in Spellings, pre \in Pres, conc \in BOOLEAN, ig \in BOOLEAN :
-       LET opts == [ign |-> ig, deref |-> FALSE, allow |-> {}]
+       LET opts == [ign |-> ig, deref |-> FALSE, allow |-> {}, allowrel |-> { <<"..","ext">> }]
            r == PackRun(pfs, s.cwd, s.sp, opts, Lines(rules))
            c == PackRun(pfs, Canon.cwd, Canon.sp, opts, Lines(rules))
            same == r.st = c.st /\ (c.st = "ok" => r.out = c.out)
